@@ -67,7 +67,7 @@ async def to_completion(coro):
         await asyncio.sleep(0)
         if task.done():
             break
-        if loop._ready or getattr(loop, "_scheduled", None):
+        if loop._ready or S_.timer_due_soon(loop):
             idle = 0
             continue
         idle += 1
